@@ -132,7 +132,7 @@ type c17case struct {
 }
 
 func C17(c *core.Ctx) {
-	c.Rule = "pairs (format, x, y): all 65 536 pairs of each 8-bit type, boundary-set squares for wider types, random byte strings (prefixes, high bytes), bools, enums, identityrefs, decimal64; triples over samples for the order laws; keyed lookups on slice/map backed lists. non-trivial = x≠y or a boundary operand; distinct by canonical (format,x,y)"
+	c.Rule = "pairs (format, x, y): all 65 536 pairs of each 8-bit type, boundary-set squares for wider types, random byte strings (prefixes, high bytes), bools, enums, identityrefs, decimal64; triples over samples for the order laws; keyed lookups on slice/map backed lists; decimal64 keys (fraction-digits 8 and 2, neighbours in the last digit) in the keyed lookups. non-trivial = x≠y or a boundary operand; distinct by canonical (format,x,y)"
 	c.Assumptions = append(c.Assumptions,
 		"sort.Sort leaves a permutation sorted w.r.t. Less (standard library contract); Decimal64 is a Go float64 and its comparison follows IEEE-754 (x<y) — not proved in Lean",
 		"enum ids lie in the int32 range (RFC 7950 9.6.4.2) so Enum.Compare's subtraction in 64-bit int is exact")
